@@ -24,7 +24,7 @@ RULE = ("cases: plog models of every class (integer leaves, explicit and generat
         "counts); distinct by recipe digest")
 BUDGET = {"quick": (8, 150, 60), "thorough": (16, 2500, 900)}
 MANDATORY = ["judged:proposition:structure", "judged:proposition:text", "judged:proposition:queries", "judged:polyhedron:structure",
-             "judged:polyhedron:select", "contract:AtLeast.to_b64", "contract:ge_polyhedron_config.to_b64", "count:with-defaults", "count:xnor-or-imply"]
+             "judged:polyhedron:select", "contract:AtLeast.to_b64", "contract:ge_polyhedron_config.to_b64", "count:with-defaults", "count:xnor-or-imply", "count:derived-by-assume", "count:derived-by-reduce"]
 
 _n = 0
 
@@ -137,7 +137,12 @@ def install(ctx):
 def gen_case(rng, tier, ctx, i):
     if rng.random() < 0.2:
         from . import polygen
-        p = polygen.gen_poly(rng, allow_int16=False)
+        p = polygen.gen_poly(rng, allow_int16=False, narrow=False)
+        if rng.random() < 0.3:
+            # coefficients beyond 32 bits (e.g. big-M rows of variables with very wide bounds)
+            for row in p["M"]:
+                j = rng.randrange(len(row))
+                row[j] = rng.choice([3_000_000_000, -2_999_999_995, 2 ** 40 + 1, -(2 ** 33)])
         if p["index"] is None or rng.random() < 0.5:
             p["index"] = ["row-%d" % k for k in rng.sample(range(20), len(p["M"]))]       # a row index that is not the default one
         return {"poly": p, "dpv": [rng.choice([-1, -1, -2, 0, 3]) for _ in p["ids"]], "dtype": rng.choice(["int64", "int64", "int32"])}
@@ -147,7 +152,7 @@ def gen_case(rng, tier, ctx, i):
     rec = common.model_case(rng, tier, o)
     if rec is None:
         return None
-    return {"recipe": rec, "cfg": False}
+    return {"recipe": rec, "cfg": False, "seed": rng.getrandbits(32)}
 
 
 def run_case(case, ctx):
@@ -163,6 +168,23 @@ def run_case(case, ctx):
     if adapters.is_leaf(m) or adapters.validated(m) is None:
         raise monitor.OutOfScope()
     ctx.call("to_b64", m.to_b64)
+    # models returned by the library itself (assume / reduce / negate) are propositions too
+    rng = random.Random(case.get("seed", 0))
+    g, top, info = adapters.graph_of(m)
+    lv = refmodel.leaves(g, top)
+    if lv and not case["cfg"]:
+        d = {l: rng.randint(*g[l]["b"]) for l in rng.sample(lv, rng.randint(1, len(lv))) if g[l]["b"][1] - g[l]["b"][0] < 100}
+        am = ctx.call("assume", recipes.fresh(case["recipe"]).assume, d)
+        if not adapters.is_leaf(am) and adapters.validated(am, need_no_prefixed=False) is not None:
+            ctx.count("count:derived-by-assume")
+            ctx.call("to_b64", am.to_b64)
+            rm = ctx.call("reduce", am.reduce)
+            if not adapters.is_leaf(rm) and adapters.validated(rm, need_no_prefixed=False) is not None:
+                ctx.count("count:derived-by-reduce")
+                ctx.call("to_b64", rm.to_b64)
+        ng = ctx.call("negate", recipes.fresh(case["recipe"]).negate)
+        if adapters.validated(ng, need_no_prefixed=False) is not None:
+            ctx.call("to_b64", ng.to_b64)
     if case["cfg"]:
         c14.clear_caches()
         p = ctx.call("ge_polyhedron", lambda: m.ge_polyhedron)
